@@ -171,3 +171,7 @@ def run(ctx):
     n = 1200 if ctx.tier == "quick" else 30000
     stream.run_stream(ctx, "contract", "harness.props.c02", "gen_cases", n, per_chunk=80,
                       canon_kw=dict(drop_zero=True))
+
+
+def replay(ctx, payload):
+    return stream.replay(ctx, payload, canon_kw=dict(drop_zero=True))
